@@ -3,13 +3,14 @@
 # /repo itself), run the quick checks against that copy (VERIF_REPO), remove the worktree.  Safe to run several
 # at once and while other checks use /repo.  Output: one line per check.
 P=$1; shift
+ROOT=$(cd "$(dirname "$0")/.." && pwd)
 WT=/tmp/wt/try-$$
 for attempt in 1 2 3 4; do git -C /repo worktree add -q --detach "$WT" HEAD 2>/dev/null && break; sleep $((attempt * 2)); done
 [ -d "$WT" ] || { echo "could not create scratch worktree"; exit 2; }
-cleanup() { git -C /repo worktree remove --force "$WT" 2>/dev/null; rm -rf "/verif/build/trial-try-$$"; }
+cleanup() { git -C /repo worktree remove --force "$WT" 2>/dev/null; rm -rf "$ROOT/build/trial-try-$$"; }
 trap cleanup EXIT
 git -C "$WT" apply "$P" || { echo "patch does not apply"; exit 2; }
-cd /verif
+cd "$ROOT"
 for pid in "$@"; do
   out=$(VERIF_REPO=$WT ./check $pid --tier ${TIER:-quick} 2>&1)
   echo "$out" | grep -E "^(VIOLATION|OK|KNOWN-FINDING|TRIAL)|^  " | head -4 | sed "s|^|[$pid] |"
